@@ -70,7 +70,9 @@ impl<'r> fixed_point::FixedPointAnalysis<'r, LocationSet> for ReachingDefinition
                                     .scalars_written()
                                     .into_iter()
                                     .flatten()
-                                    .any(|scalar| scalar == scalar_written)
+                                    // a definition which also writes other scalars
+                                    // is still their last writer, it is not killed
+                                    .all(|scalar| scalar == scalar_written)
                             })
                             .cloned()
                             .collect();
